@@ -51,11 +51,15 @@ class Env(object):
     self._old_tempdir = tempfile.tempdir
     tempfile.tempdir = self.tmpdir        # generated files of malt's loader: not in /tmp
     with open(TEMPLATE) as f:
-      self.template = f.read()
+      parts = f.read().split('\n# --- section: ')
+    self.header = parts[0]
+    self.sections = {p.split('\n', 1)[0].strip(): p.split('\n', 1)[1] for p in parts[1:]}
     self.serial = 0
     # ---- observation state
     self.fired = 0          # instrumented control-flow operators executed
     self.depth = 0          # >0 while inside a call wrapper invoked from converted code
+    self.base_depth = 0     # depth at which the call wrapper under test runs (1 when a converted caller makes the call)
+    self._callers = {}
     self.warnings = []      # warnings emitted at depth 0
     self.nested_warnings = []
     self.attempts = 0       # _convert_actual entered at depth 0
@@ -118,10 +122,10 @@ class Env(object):
       text = (a[0] % a[1:]) if len(a) > 1 else str(a[0])
     except Exception:  # pylint:disable=broad-except
       text = repr(a)
-    (self.warnings if self.depth == 0 else self.nested_warnings).append(text)
+    (self.warnings if self.depth == self.base_depth else self.nested_warnings).append(text)
 
   def _attempt(self, orig, a, k):
-    if self.depth == 0:
+    if self.depth == self.base_depth:
       self.attempts += 1
     return orig(*a, **k)
 
@@ -160,6 +164,14 @@ class Env(object):
     finally:
       setattr(owner, name, orig)
 
+  # ---- real generated call sites ------------------------------------------------------------------
+  def caller(self, fn, recursive):
+    """`fn` (one of the _call_* functions below) converted by to_graph(recursive=...)."""
+    key = (fn.__name__, recursive)
+    if key not in self._callers:
+      self._callers[key] = self.api.to_graph(fn, recursive=recursive, experimental_optional_features=None)
+    return self._callers[key]
+
   # ---- options ----------------------------------------------------------------------------------
   def options(self, name):
     """(options object for options=, function scope or None) for an option name of the specification."""
@@ -172,11 +184,12 @@ class Env(object):
     return scope.callopts, scope
 
   # ---- fresh modules ----------------------------------------------------------------------------
-  def load_targets(self, modname_components, cid, tag):
-    """Executes a fresh copy of the targets file as module <components>.vfc13<tag>_<cid>."""
+  def load_targets(self, modname_components, cid, tag, sections):
+    """Executes a fresh copy of (the needed sections of) the targets file as module
+    <components>.vfc13<tag>_<cid>."""
     name = '.'.join(list(modname_components) + ['vfc13%s_%s' % (tag, cid)])
     path = os.path.join(self.srcdir, 'm_%s_%s.py' % (tag, cid))
-    src = self.template.replace(MARK, 'case-%s-%s' % (tag, cid))
+    src = (self.header + ''.join(self.sections[x] for x in sections)).replace(MARK, 'case-%s-%s' % (tag, cid))
     with open(path, 'w') as f:
       f.write(src)
     mod = types.ModuleType(name)
@@ -245,19 +258,39 @@ class Realisation(object):
     self.in_context = None      # 'eval' | 'super' | 'globals' | 'locals'
 
 
+# sections of the targets file a kind needs: (user copy, copy living in an allow-listed module)
+SECTIONS = {
+    'function': (('function',), ()), 'lambda': (('lambda',), ()), 'closure': (('closure',), ()),
+    'decorated': (('decorated',), ()), 'bound_method': (('obj',), ()), 'unbound_method': (('obj',), ()),
+    'class_method': (('obj',), ()), 'static_method': (('obj',), ()), 'callable_object': (('obj',), ()),
+    'callable_slots': (('slots',), ()), 'callable_static': (('staticcall',), ()),
+    'callable_classm': (('classcall',), ()), 'class_meta': (('meta',), ()),
+    'callable_partialsub': (('partialsub',), ()), 'method_nt_sub': (('nt',), ()),
+    'method_overridden': (('owner',), ('owner',)), 'generator': (('gen',), ()), 'callable_gen': (('gencall',), ()),
+    'callable_allowcall': ((), ('callfunc',)), 'method_testcase': (('testcase',), ()),
+    'method_owner': (('owner',), ('owner',)), 'method_base': (('owner',), ('owner',)),
+    'method_nt_own': (('nt', 'owner'), ()), 'method_nt': (('nt',), ()), 'class': (('cls',), ()),
+    'namedtuple_class': (('nt',), ()), 'lru_cached': (('lru',), ()), 'wrapt_function': (('wrapt',), ()),
+    'artifact_dnc': (('function',), ()), 'artifact_converted': (('function',), ()),
+    'artifact_unspec': (('function',), ()), 'exec_function': (('exec',), ()), 'fn_nosource': (('exec',), ()),
+    'callable_native': (('nativecall',), ()), 'fn_forelse': (('forelse',), ()), 'async_function': (('acoro',), ()),
+}
+
+
 def realise(env, rec, cid):
   """Builds the innermost target of the descriptor."""
   kind = rec['kind']
   R = Realisation()
   R.instr = rec['instr']
-  U = env.load_targets(rec['mod'] if rec['modsens'] else ['vfc13user'], cid, 'u')
+  usec, asec = SECTIONS.get(kind, ((), ()))
+  U = env.load_targets(rec['mod'] if rec['modsens'] else ['vfc13user'], cid, 'u', usec)
   R.modules.append(U)
   R.logs.append(U.LOG)
   R.posval = lambda i, tok, n: tok
   R.kwval = lambda key, tok: tok
 
   def allowlisted_copy():
-    A = env.load_targets(['tensorflow', 'python', 'ops'], cid, 'a')
+    A = env.load_targets(['tensorflow', 'python', 'ops'], cid, 'a', asec)
     R.modules.append(A)
     R.logs.append(A.LOG)
     return A
@@ -298,6 +331,8 @@ def realise(env, rec, cid):
     R.receiver = U.ClassCall
   elif kind == 'class_meta':
     R.base = R.receiver = U.WithMeta
+  elif kind == 'callable_partialsub':
+    R.base = R.receiver = U.PartialSub(dict)
   elif kind == 'method_nt_sub':
     R.receiver = U.NTSub('x')
     R.base = R.receiver.meth
@@ -361,8 +396,8 @@ def realise(env, rec, cid):
     import numpy
     from malt.pyct import parser as malt_parser
     pick = [(posixpath.basename, lambda: '/a/b.c'), (posixpath.normpath, lambda: '/a/../b'),
-            (numpy.linalg.norm, lambda: [3.0, 4.0]), (malt_parser.dedent_block, lambda: '  x = 1\n  y = 2\n'),
-            (numpy.sum, lambda: [1, 2, 3])][int(cid) % 5]
+            (numpy.isscalar, lambda: 4.0), (malt_parser.dedent_block, lambda: '  x = 1\n  y = 2\n'),
+            (numpy.iterable, lambda: [1, 2, 3])][int(cid) % 5]
     R.base, mk = pick
     R.posval = lambda i, tok, n: mk()
     R.shared = True
@@ -446,6 +481,45 @@ def realise(env, rec, cid):
 
 
 # ---------------------------------------------------------------------------------------------------
+# call sites that are converted for real (mode "generated"): the call wrapper is then invoked by generated
+# code, with the argument tuples / dicts the call_trees converter builds
+# ---------------------------------------------------------------------------------------------------
+def _call_0(f):
+  return f()
+
+
+def _call_1(f, a):
+  return f(a)
+
+
+def _call_2(f, a, b):
+  return f(a, b)
+
+
+def _call_k(f, a, v):
+  return f(a, k=v)
+
+
+def _call_star(f, args, kw):
+  return f(*args, **kw)
+
+
+def _call_mixed(f, a, rest, kw):
+  return f(a, *rest, **kw)
+
+
+def _pick_caller(rec, args, kwargs, parity):
+  """(caller function, its arguments after f) for the call-site shape of the descriptor."""
+  if kwargs is None:
+    return [_call_0, _call_1, _call_2][len(args)], tuple(args)
+  if rec['instr'] and rec['kwsh'] == 'k' and len(args) == 1 and 'k' in kwargs:
+    return _call_k, (args[0], kwargs['k'])
+  if args and parity:
+    return _call_mixed, (args[0], args[1:], kwargs)
+  return _call_star, (args, kwargs)
+
+
+# ---------------------------------------------------------------------------------------------------
 # one history
 # ---------------------------------------------------------------------------------------------------
 class _HostBase(object):
@@ -496,6 +570,7 @@ class Host(_HostBase):
           f.vf_keep = True            # an instance attribute stops functools from flattening
         objs.insert(0, f)
       _check_chain(rec, objs, R, pval, kval)     # model validation: CPython built the specified chain
+      snapshot = [(o.func, o.args, dict(o.keywords)) for o in objs[:-1]]
       chain_objs = objs if rec['nl'] + 1 == len(objs) else [objs[0], objs[-1]]
       if len(chain_objs) != rec['nl'] + 1:
         raise common.MachineryError('chain length %d, specification says %d' % (len(chain_objs) - 1, rec['nl']))
@@ -554,11 +629,16 @@ class Host(_HostBase):
       # ---- the two calls through the call wrapper
       status = getattr(env.ag_ctx.Status, rec['ctx'])
       os.environ['AUTOGRAPH_STRICT_CONVERSION'] = '1' if rec['strict'] else '0'
+      generated = bool(rec.get('_generated'))
+      env.base_depth = 1 if generated else 0
       for callno in (1, 2):
         exp = rec['calls'][callno - 1]
         nm = names[callno - 1]
         fscope = scopes[nm]
         args, kwargs = call_args()
+        if generated:
+          cfn, cargs = _pick_caller(rec, args, kwargs, int(cid) % 2)
+          conv_caller = env.caller(cfn, nm == 's_r1')
         point = rec['fault'] if rec['fcall'] == callno else 'none'
         begin()
         res = exc = None
@@ -566,7 +646,9 @@ class Host(_HostBase):
         with env.fault(point) as injected, env.ag_ctx.ControlStatusCtx(status=status), \
             contextlib.redirect_stdout(out):
           try:
-            if fscope is not None:
+            if generated:
+              res = conv_caller(f, *cargs)
+            elif fscope is not None:
               res = env.api.converted_call(f, args, kwargs, fscope)
             else:
               res = env.api.converted_call(f, args, kwargs, options=optobj[nm])
@@ -579,8 +661,17 @@ class Host(_HostBase):
         p = _compare(rec, R, callno, exp, direct, got, injected)
         if p:
           problems.append(p)
+        # effects: the wrapper leaves the partial objects as they were
+        after = [(o.func, o.args, dict(o.keywords)) for o in objs[:-1]]
+        if not problems and not _eq(after, snapshot):
+          problems.append(dict(
+              signature='c13:transparency:%s:partial-object-changed' % rec['kind'],
+              what='[effects] call %d changed the functools.partial object it went through: %r -> %r' % (
+                  callno, [x[1:] for x in snapshot], [x[1:] for x in after]),
+              witness=dict(descriptor={k: v for k, v in rec.items() if k != 'calls'}, call=callno, expected=exp)))
       return problems
     finally:
+      env.base_depth = 0
       if strict_before is None:
         os.environ.pop('AUTOGRAPH_STRICT_CONVERSION', None)
       else:
@@ -710,6 +801,12 @@ def _validate_direct(rec, R, direct, pos_tokens, kw_tokens, pval, kval):
                                 'specification %r, CPython %r (%s)' % (want, got, rec['kind']))
 
 
+# clause -> the part of the property statement it belongs to
+GROUP = {'error': 'transparency', 'exception': 'transparency', 'invoked-once': 'transparency',
+         'binding': 'transparency', 'result': 'transparency', 'converted': 'policy', 'attempt': 'policy',
+         'warning': 'fallback', 'strict': 'fallback', 'cache': 'memory'}
+
+
 def _exc_class(e):
   if e is None:
     return ''
@@ -719,15 +816,20 @@ def _exc_class(e):
 def _compare(rec, R, callno, exp, direct, got, injected):
   """First difference between the specification's outcome and the observed one, as a problem dict."""
   def problem(clause, what):
-    sig = 'c13:%s:%s:%s' % (clause, rec['kind'], exp['rule'])
-    if rec['fault'] != 'none' and exp['failat']:
+    # signature = <what is demanded>:<kind of callable>:<rule the specification applies>[:<fault point>]
+    family = 'builtin_in_context' if rec['kind'] in ('bi_eval', 'bi_super', 'bi_globals', 'bi_locals') else rec['kind']
+    rule = exp['rule']
+    if rec['kind'] == 'callable_partialsub' and GROUP[clause] == 'transparency':
+      rule = 'any'        # one root cause whatever the specification's rule: the object is unwrapped like a plain partial
+    sig = 'c13:%s:%s:%s' % (GROUP[clause], family, rule)
+    if rec['fault'] != 'none' and exp['failat'] and rule != 'any':
       sig += ':' + rec['fault']
     w = dict(descriptor={k: v for k, v in rec.items() if k != 'calls'}, call=callno, expected=exp,
              observed=dict(result=repr(got['res'])[:300], exception=repr(got['exc'])[:300],
                            invocations=len(got['log']), fired=got['fired'], warnings=[w[:200] for w in got['warnings']],
                            attempts=got['attempts'], cache=got['cache'], stdout=got['out'][:200]),
              direct=dict(result=repr(direct['res'])[:300], exception=repr(direct['exc'])[:300], stdout=direct['out'][:200]))
-    return dict(signature=sig, what='call %d: %s' % (callno, what), witness=w)
+    return dict(signature=sig, what='[%s] call %d: %s' % (clause, callno, what), witness=w)
 
   # 1. errors
   oc = _exc_class(got['exc'])
